@@ -471,6 +471,37 @@ func runDig(c digCase, r *pb.Rec) error {
 		if !bytes.Equal(key, c.Key) {
 			return fmt.Errorf("Hmac modified its key")
 		}
+		// the caller refills its key buffer in place (key rotation, a pooled buffer): same memory and length, other key
+		for k := 0; k < 2 && len(key) > 0; k++ {
+			for j := range key {
+				key[j] ^= byte(0x5a + j + k)
+			}
+			m2 := hmac.New(hf, key)
+			m2.Write(c.Data)
+			w2 := h(m2.Sum(nil))
+			if a, b := string(hashz.Hmac(key, in, hf)), hashz.HmacToString(key, s, hf); a != w2 || b != w2 {
+				return fmt.Errorf("Hmac #%d with key %x held in the buffer that held key %x at the previous call, data %x: %q %q want %q", i, key, c.Key, c.Data, a, b, w2)
+			}
+		}
+		if len(c.Key) > 0 && (len(c.Data)+len(c.Key)+i)%29 == 0 {
+			// keys of one length, each allocated, used and dropped, with a garbage collection before the next one is
+			// allocated at (usually) the same address
+			r.Class("same-length keys in recycled memory, a collection between calls")
+			if err := g.Recycle(4, func(round int) error {
+				k2 := make([]byte, len(c.Key))
+				for j := range k2 {
+					k2[j] = c.Key[j] + byte(round+1)
+				}
+				m2 := hmac.New(hf, k2)
+				m2.Write(c.Data)
+				if a, w2 := string(hashz.Hmac(string(k2), in, hf)), h(m2.Sum(nil)); a != w2 {
+					return fmt.Errorf("Hmac #%d, key %d of a series of same-length keys in recycled memory (%x), data %x: %q want %q", i, round, k2, c.Data, a, w2)
+				}
+				return nil
+			}); err != nil {
+				return err
+			}
+		}
 	}
 	if !bytes.Equal(in, c.Data) {
 		return fmt.Errorf("digest helper modified its input")
